@@ -14,19 +14,20 @@ PASS0=$(cd $S && timeout 300 /venv/bin/python $DEST/demo.py >/dev/null 2>&1; ech
 (cd $S && git apply $DEST/patch.diff) || { echo "$ID-$K: patch does not apply to /repo HEAD"; rm -rf $S; exit 0; }
 TESTS=$(cd $S && /venv/bin/python -m pytest -q -p no:cacheprovider 2>&1 | tail -1)
 FAIL1=$(cd $S && timeout 300 /venv/bin/python $DEST/demo.py >/dev/null 2>&1; echo $?)
-OUT=$(cd /verif && VERIF_REPO=$S VERIF_EVIDENCE=$S/ev.json timeout 1500 ./vcheck $ID 2>&1)
+CID=${CHECK_ID:-$ID}
+OUT=$(cd /verif && VERIF_REPO=$S VERIF_EVIDENCE=$S/ev.json timeout 1500 ./vcheck $CID 2>&1)
 RC=$?
 NV=$(echo "$OUT" | grep -ac "^VIOLATION")
 FIRST=$(echo "$OUT" | grep -a "^VIOLATION" | head -1)
-SUMMARY=$(echo "$OUT" | grep -a "^$ID \[" | tail -1)
+SUMMARY=$(echo "$OUT" | grep -a "^$CID \[" | tail -1)
 rm -rf $S
 echo "$ID-$K demo_clean=$PASS0 tests='$TESTS' demo_patched=$FAIL1 check_rc=$RC violations=$NV $FIRST"
 python3 - "$DEST" "$ID" "$K" "$PASS0" "$TESTS" "$FAIL1" "$RC" "$NV" "$SUMMARY" <<'PY'
-import json,sys
+import json,sys,os
 dest,ID,K,p0,tests,f1,rc,nv,summary=sys.argv[1:]
 m=json.load(open(dest+'/meta.json'))
 m['verified_by_main']={'demo_exit_on_clean_tree':int(p0),'unit_tests_with_patch':tests,'demo_exit_with_patch':int(f1),
-  'check':f'./vcheck {ID} --tier quick (VERIF_REPO = scratch copy of /repo HEAD + patch)','check_exit':int(rc),'violations_reported':int(nv),'check_summary':summary,
+  'check':f'./vcheck {os.environ.get("CHECK_ID", ID)} --tier quick (VERIF_REPO = scratch copy of /repo HEAD + patch)','check_exit':int(rc),'violations_reported':int(nv),'check_summary':summary,
   'caught': int(rc)==1 and int(nv)>0}
 json.dump(m,open(dest+'/meta.json','w'),indent=1)
 PY
